@@ -90,6 +90,7 @@ type c08Tpl struct {
 var c08Tpls = []c08Tpl{
 	// [E] so that a multi-result E does not loop the body (variables loop once per result)
 	{"as", false, func(r *rand.Rand, e, e2 string) string { return "[" + e + "] as $x | ." }},
+	{"as-raw", false, func(r *rand.Rand, e, e2 string) string { return "(" + e + ") as $x | ." }},
 	{"select-collect", false, func(r *rand.Rand, e, e2 string) string { return "select([" + e + "] | length > -1)" }},
 	{"select", false, func(r *rand.Rand, e, e2 string) string { return "select((" + e + ") or true)" }},
 	{"select-raw", false, func(r *rand.Rand, e, e2 string) string { return "select(" + e + ")" }},
@@ -169,6 +170,27 @@ func (p c08) Run(w *mon.Worker, idx int) mon.Result {
 		res.Tags = append(res.Tags, "select_dropped")
 	}
 	res.Nontrivial = strings.ContainsAny(e, ".[(") && len(e) > 1
+	if t.name == "as-raw" {
+		// the body runs once per result of E: the document is printed that many times (and nothing else)
+		// (counted in the same kind of context: the left side of `as` is read-only, where a missing key yields no result)
+		cnt, cerr, cpan := yqx.Eval("(["+e+"] | length) as $n | $n", docText, "yaml", "json")
+		res.Evals++
+		n := 0
+		if cerr != nil || cpan != nil {
+			res.Verdict, res.Detail = mon.Held, "E failed"
+			res.Tags = append(res.Tags, "e_failed")
+			return res
+		}
+		fmt.Sscanf(strings.TrimSpace(cnt), "%d", &n)
+		if out == strings.Repeat(base, n) {
+			res.Verdict, res.Detail = mon.Held, fmt.Sprintf("document printed %d times, unchanged", n)
+			return res
+		}
+		if n > 0 && strings.Count(out, base) == n && len(out) == n*len(base) {
+			res.Verdict, res.Detail = mon.Held, "document unchanged"
+			return res
+		}
+	}
 	if out == base {
 		res.Verdict = mon.Held
 		res.Detail = "document unchanged"
